@@ -318,7 +318,7 @@ def run(chk, histories=None):
                 "classes and both composites incl. pre-constructed, re-used, non-LIFO-exited objects; distinct = distinct "
                 "event sequence; non-trivial = at least one enter of a context whose value differs from the value in force")
     chk.assumptions += ["Python attribute lookup / `with` protocol as documented", "values are compared through an injective coding"]
-    chk.prove("LinOp.Properties.C17", ["LinOp/C17", "LinOp/Generated/C17Table.lean", "LinOp/Core/Parse.lean", "Driver/C17.lean"])
+    chk.prove("LinOp.Properties.C17", ["LinOp/C17", "LinOp/Generated/C17Table.lean", "LinOp/Core/Parse.lean", "LinOp/Core/Basic.lean"])
     impl = Impl(classes, composites)
     # dynamic cross-check of the translator: the table is the run-time class table
     import linear_operator.settings as S
@@ -332,7 +332,7 @@ def run(chk, histories=None):
         if c["base"] == "_feature_flag" and bool(k._default) != (c["default"] == "True"):
             chk.proof_break("translator(C17Table)", f"_default of {c['name']} differs at run time")
     base0 = small_computation()
-    n, maxlen = (300, 30) if chk.tier == "quick" else (4000, 200)
+    n, maxlen = (300, 30) if chk.tier == "quick" else (1500, 200)
     if histories is None:
         histories = []
         # templates first: the two defects fixed in the repo (must stay fixed)
